@@ -204,7 +204,7 @@ class C11(Oracle):
 
     TIMED_INPUT_CODE = ("charging_price_update.py", "update_requests_from_file.py", "cancel_requests.py", "iterators.py", "station_ops.py")
 
-    def aborted(self, run, k, exc):
+    def aborted(self, run, k, exc, closing=False):
         # "never stopping the run" is about the timed inputs: an exception raised while they are being applied.  One that escapes
         # from somewhere else (a generator, a vehicle update) stops the run too, but is not this property's business: the run
         # is then counted as aborted like anywhere else.
